@@ -78,6 +78,11 @@ pub fn catch<T>(f: impl FnOnce() -> T) -> Result<T, (String, String)> {
     }
 }
 
+/// The panic recorded by the hook since the last `catch` (a panic inside a spawned task is swallowed by the runtime).
+pub fn take_last_panic() -> Option<(String, String)> {
+    LAST_PANIC.with(|p| p.borrow_mut().take())
+}
+
 /// Strip the absolute prefix so signatures are stable across checkouts.
 pub fn short_loc(loc: &str) -> String {
     if let Some(i) = loc.find("omaha-client/src/") {
